@@ -1,4 +1,5 @@
-(* driver for C17: case line "cb0=<act>,.. cb1=.. <op> <op> ..." (see harness/loopharness.h).
+(* driver for C17: case line "cb0=<act>,.. ub0=<act>,.. <op> <op> ..." (see harness/loopharness.h;
+   ub<k> = what callback k registers when it gets the bare UNBIND notification of a cancel).
    model mode prints the model's observation (LoopDefs.run, fixed behaviour; with
    VERIF_C17_PINNED=1 the model of the pinned code, LoopAsIs.a_run, FAULT = use after free);
    oracle mode reads "<case> | <obs>" and applies LoopSpec.spec_checkb. *)
@@ -20,17 +21,19 @@ let action_of a =
   | 'c' when String.length a > 1 && a.[1] <> 'b' -> Some (ACancel (zi (int_of_string (tl a 1))))
   | _ -> None
 let parse_case line =
-  let cbs = Hashtbl.create 8 in
+  let cbs = Hashtbl.create 8 and ubs = Hashtbl.create 8 in
   let ops = ref [] in
+  let table tbl tok =
+    match String.index_opt tok '=' with
+    | Some i ->
+      let k = int_of_string (String.sub tok 2 (i - 2)) in
+      let acts = List.filter (fun x -> x <> "") (String.split_on_char ',' (tl tok (i + 1))) in
+      Hashtbl.replace tbl k (List.map (fun a -> match action_of a with Some x -> x | None -> failwith ("act " ^ a)) acts)
+    | None -> failwith "table" in
   List.iter (fun tok ->
-      if String.length tok > 2 && tok.[0] = 'c' && tok.[1] = 'b' then begin
-        match String.index_opt tok '=' with
-        | Some i ->
-          let k = int_of_string (String.sub tok 2 (i - 2)) in
-          let acts = List.filter (fun x -> x <> "") (String.split_on_char ',' (tl tok (i + 1))) in
-          Hashtbl.replace cbs k (List.map (fun a -> match action_of a with Some x -> x | None -> failwith ("act " ^ a)) acts)
-        | None -> failwith "cb"
-      end else
+      if String.length tok > 2 && tok.[0] = 'c' && tok.[1] = 'b' then table cbs tok
+      else if String.length tok > 2 && tok.[0] = 'u' && tok.[1] = 'b' then table ubs tok
+      else
         match action_of tok with
         | Some a -> ops := OAct a :: !ops
         | None ->
@@ -40,7 +43,8 @@ let parse_case line =
            | _ -> failwith ("op " ^ tok)))
     (split_ws line);
   let env z = try Hashtbl.find cbs (int_of_z z) with Not_found -> [] in
-  (env, List.rev !ops)
+  let uenv z = try Hashtbl.find ubs (int_of_z z) with Not_found -> [] in
+  (env, uenv, List.rev !ops)
 let kind_of_int = function 0 -> KTimer | 1 -> KLater | 2 -> KIo | 3 -> KSig | 4 -> KProc | _ -> failwith "kind"
 let int_of_kind = function KTimer -> 0 | KLater -> 1 | KIo -> 2 | KSig -> 3 | KProc -> 4
 let pr_obs l =
@@ -61,21 +65,21 @@ let parse_obs s =
 let rec nat_of_int n = if n <= 0 then O else S (nat_of_int (n - 1))
 let pinned = (try Sys.getenv "VERIF_C17_PINNED" = "1" with Not_found -> false)
 let model line =
-  let (env, ops) = parse_case line in
+  let (env, uenv, ops) = parse_case line in
   if pinned then
     (* the pinned library (LoopAsIs.v, and the UNBIND|UNBIND mask of tickit_watch_io) *)
     match a_run true env (nat_of_int 3000) ops with
     | Some l -> pr_obs l
     | None -> "FAULT"
-  else pr_obs (run false env ops)
+  else pr_obs (run false env uenv ops)
 let oracle line =
   match String.index_opt line '|' with
   | Some i ->
     let c = String.sub line 0 i and o = tl line (i + 1) in
-    let (env, ops) = parse_case c in
+    let (env, uenv, ops) = parse_case c in
     (match (try Some (parse_obs o) with _ -> None) with
      | None -> "BAD unreadable observation"
-     | Some obs -> if spec_checkb env ops obs then "OK" else "BAD differs from the specification: " ^ pr_obs (spec_run env ops))
+     | Some obs -> if spec_checkb env uenv ops obs then "OK" else "BAD differs from the specification: " ^ pr_obs (spec_run env uenv ops))
   | None -> "BAD"
 let () =
   let f = if Array.length Sys.argv > 1 && Sys.argv.(1) = "oracle" then oracle else model in
